@@ -127,7 +127,7 @@ const WHERE_FORMS: &[&str] = &[
     "X:", "(): Tr", "X: Fn(i32) -> i32", "X: Tr<{ 1 }>", "X: !Tr", "X: const Tr", "i32: Into<X>", "X = i32", "X: Tr + ?Sized + 'static",
 ];
 
-fn gen_token_forms(ctx: &mut Ctx) -> Option<(String, Vec<String>)> {
+pub fn gen_token_forms(ctx: &mut Ctx) -> Option<(String, Vec<String>)> {
     let (hole, host, forms) = TOKEN_HOLES[ctx.choose(TOKEN_HOLES.len())];
     let f = forms[ctx.choose(forms.len())];
     Some((host.replace("@@", f), vec![format!("hole={}", hole), format!("form={}", f)]))
